@@ -836,10 +836,12 @@ func RunC12(e *core.Env) int {
 			if err := sc.materialise(root, sc.Alien, ""); err != nil {
 				return
 			}
-			o := c12Run(e, root, sc, c12Forms[0], c12Absent)
-			if o.Res.Exit == 0 && o.Present {
+			ar := c12CleanRef(e, root, sc, c12Forms[0])
+			if !ar.OK {
+				rep.Inconclusive(fmt.Sprintf("reference run not reproducible: alien setup of scenario %s/%s", sc.ID, sc.Layout))
+			} else if ar.Exit == 0 && ar.Present {
 				mu.Lock()
-				alienOut[t.sc] = o.Out
+				alienOut[t.sc] = ar.Out
 				mu.Unlock()
 			}
 			return
@@ -866,6 +868,7 @@ func RunC12(e *core.Env) int {
 		jobs []c12Job
 	}
 	var tasks []task
+	var scenInfo []string
 	const chunk = 48
 	for si, sc := range scs {
 		ref0 := refs[refKey{si, 0, 0}]
@@ -904,6 +907,10 @@ func RunC12(e *core.Env) int {
 			}
 			tasks = append(tasks, task{si, jobs[a:z]})
 		}
+		mu.Lock()
+		scenInfo = append(scenInfo, fmt.Sprintf("%s/%s origin=%s ref_exit=%d clean_bytes=%d clean_hash=%s versions=%d stale=%d pre_states=%d jobs=%d",
+			sc.ID, sc.Layout, sc.Origin, ref0.Exit, len(clean), core.Hash(string(clean)), len(sc.Versions), len(stale), len(pres), len(jobs)))
+		mu.Unlock()
 		if clean != nil {
 			rep.Histo("clean_output_size", fmt.Sprintf("%d00-%d99", len(clean)/100, len(clean)/100))
 			rep.Sample(map[string]any{"kind": "scenario", "scenario": sc.ID, "layout": sc.Layout, "setup": core.Trunc(sc.Versions[0].Setup, 800),
@@ -911,6 +918,7 @@ func RunC12(e *core.Env) int {
 				"example_pre_states": []string{pres[0].Label, pres[len(pres)/3].Label, pres[len(pres)/2].Label, pres[len(pres)-1].Label}}, 2)
 		}
 	}
+	rep.Extra("scenarios", scenInfo)
 	e.Parallel(len(tasks), func(i int) {
 		t := tasks[i]
 		sc := scs[t.sc]
